@@ -25,6 +25,10 @@ extra = {"C08": "yes: downloads after an abandoned earlier transfer on the same 
          "R2C04": "yes: messages whose public header field was replaced after set_token (token-length nibble != token) at the limit boundaries",
          "R2C11": "yes (attribution): the rejection was reported under C20 only ('behaves as if expired'); the pinned predicates are now reported as well",
          "R2C16": "yes: a non-ASCII White_Space character in the model alphabet; driver values with white-space edges",
+         "R3C02": "yes: C02 is now judged on every accepted datagram, also one that should have been rejected; 0xFE added to the model alphabet (running option number past 65535)",
+         "R3C10": "yes: uploads whose overhead grows from the second block on under a tight budget; resuming at a non-zero block with an over-sized block after an abandoned upload",
+         "R3C17": "yes: the two unquoting paths are compared at every iterator position, not only on the fresh value",
+         "R3C20": "yes: expiry elapsing between intercept_request and intercept_response (slow application); a response pushed through the handler as the first use after expiry",
          "C20": "yes: expiry under block-wise traffic on other keys (model `Other` now block-wise; driver scenario `expiry-traffic`)"}
 for d in sorted(glob.glob(os.path.join(ROOT, "seeded", "*", "meta.json"))):
     m = json.load(open(d))
